@@ -255,6 +255,12 @@ def showTy (n : Names) (root : Nat) : GoTy → Bytes
   | .map kp k vp v => a "map[" ++ (if kp then a "*" else []) ++ showTy n root k ++ a "]" ++ (if vp then a "*" else []) ++ showTy n root v
   | .bad => []
 
+/-- elements of a composite literal; the optional trailing comma is not printed (the harness drops it too) -/
+def commaSep : List Bytes → Bytes
+  | [] => []
+  | [x] => x
+  | x :: r => x ++ [44] ++ commaSep r
+
 partial def showExpr (E : Env) (n : Names) (root : Nat) : GoExpr → Bytes
   | .boolLit b => a (if b then "true" else "false")
   | .intLit k => a (toString k)
@@ -265,10 +271,10 @@ partial def showExpr (E : Env) (n : Names) (root : Nat) : GoExpr → Bytes
   | .ident (.enumVal f en v) => (if qual E root f then n.qual root f else []) ++ n.enumVal f en v
   | .conv ty _ e => showTy n root ty ++ a "(" ++ showExpr E n root e ++ a ")"
   | .bytesConv e => a "[]byte(" ++ showExpr E n root e ++ a ")"
-  | .sliceLit ty es => showTy n root ty ++ a "{" ++ (es.map fun e => showExpr E n root e ++ a ",").flatten ++ a "}"
-  | .mapLit ty kvs => showTy n root ty ++ a "{" ++ (kvs.map fun (k, v) => showExpr E n root k ++ a ":" ++ showExpr E n root v ++ a ",").flatten ++ a "}"
+  | .sliceLit ty es => showTy n root ty ++ a "{" ++ commaSep (es.map fun e => showExpr E n root e) ++ a "}"
+  | .mapLit ty kvs => showTy n root ty ++ a "{" ++ commaSep (kvs.map fun (k, v) => showExpr E n root k ++ a ":" ++ showExpr E n root v) ++ a "}"
   | .structLit ty file sn ents => a "&" ++ showTy n root ty ++ a "{" ++
-      (ents.map fun (i, e) => n.field file sn i ++ a ":" ++ showExpr E n root e ++ a ",").flatten ++ a "}"
+      commaSep (ents.map fun (i, e) => n.field file sn i ++ a ":" ++ showExpr E n root e) ++ a "}"
   | .addr e => a "&" ++ showExpr E n root e
   | .ptrTrick ty e => a "(&struct{x" ++ showTy n root ty ++ a "}{" ++ showExpr E n root e ++ a "}).x"
 
@@ -310,6 +316,16 @@ def unitVerdict (E : Env) : String :=
   match all.find? (· != "accept") with
   | some v => v
   | none => "accept"
+
+/-- number of initialisers of the unit outside the hypothesis `good` of const_value -/
+def notGood (E : Env) : Nat :=
+  ((E.files.zipIdx).map fun (fe, i) =>
+    let ds := fe.structs.flatMap fun st => st.fields.filterMap fun f =>
+      match f.dflt with
+      | some d => some (good E i f.ty d)
+      | none => none
+    let cs := fe.consts.map fun c => good E i c.ty c.val
+    ((ds ++ cs).filter (· == false)).length).sum
 
 def withDefaults (x : Unit) (P : Prog) (sidx : Nat) (sd : StructDef) : StructDef :=
   match x.sidx.find? (·.1 == sidx) with
@@ -378,6 +394,7 @@ def step (s : St) (line : String) : St × String :=
               | none => (s, "bad-op")
           | _, _, _ => (s, "bad-op")
       | ["Q", u] => (s, unitVerdict (s.unit u).env)
+      | ["H", u] => (s, s!"ok {notGood (s.unit u).env}")
       | ["N", key] | ["Z", key] =>
           match splitKey key with
           | some (u, i) => match s.progs.get u with
